@@ -43,7 +43,7 @@ NAMES = [
     b"a", b"dir", b".gitmodules", b"a\\b", b"C:", b"C:x", b"\xffx",  # ordinary names on POSIX
     b"a/b",  # slash inside ONE name (malformed tree); joins to the ordinary path a/b
     b"", b".", b"..", b".git", b".GIT", ABSNAME,  # unsafe in every configuration
-    b".git ", b".git.", b"git~1", b".git::$INDEX_ALLOCATION", b"a\\.git",  # unsafe under core.protectNTFS
+    b".git ", b".git.", b"git~1", b"GIT~1.", b".git::$INDEX_ALLOCATION", b"a\\.git",  # unsafe under core.protectNTFS
     b".g\xe2\x80\x8cit",  # unsafe under core.protectHFS
 ]
 
@@ -318,15 +318,17 @@ def initial_state(cfg, with_wt=True):
 #
 # op = (kind, spec | None).  Kinds with a tree argument:
 #   clone, checkout, checkout_force, switch, reset_hard, reset_mixed, reset_soft, stash_apply, patch_add,
-#   patch_del, am
+#   patch_del, am, checkout_paths, restore_paths
 # without: reset_index, stash_push, stash_pop, am_abort
 
-TREE_OPS = ["checkout", "checkout_force", "switch", "reset_hard", "reset_mixed", "reset_soft", "stash_apply", "patch_add", "patch_del", "am"]
+TREE_OPS = ["checkout", "checkout_force", "switch", "reset_hard", "reset_mixed", "reset_soft", "stash_apply", "patch_add", "patch_del", "am",
+            "checkout_paths", "restore_paths"]
 PLAIN_OPS = ["reset_index", "stash_push", "stash_pop", "am_abort"]
 ENTRY = {
     "clone": "clone", "checkout": "checkout", "checkout_force": "checkout", "switch": "switch", "reset_hard": "reset-hard",
     "reset_mixed": "reset-mixed", "reset_soft": "reset-soft", "reset_index": "reset_index", "stash_push": "stash_push",
     "stash_pop": "stash_pop", "stash_apply": "stash_pop", "patch_add": "apply_patch", "patch_del": "apply_patch", "am": "am", "am_abort": "am_abort",
+    "checkout_paths": "checkout-paths", "restore_paths": "restore",
 }
 
 
@@ -402,6 +404,10 @@ def perform(S, op):
             porcelain.checkout(wt, target=c, force=True)
         elif kind == "switch":
             porcelain.switch(wt, target=c, detach=True, force=True)
+        elif kind == "checkout_paths":  # git checkout <commit> -- <every path of the tree>
+            porcelain.checkout(wt, target=c, paths=[p for p, _k, _d in leaves(spec)])
+        elif kind == "restore_paths":  # git restore --source=<commit> -- <every path of the tree>
+            porcelain.restore(wt, paths=[p for p, _k, _d in leaves(spec)], source=c)
         elif kind in ("reset_hard", "reset_mixed", "reset_soft"):
             porcelain.reset(wt, kind[6:], c)
         elif kind == "reset_index":
@@ -1054,8 +1060,8 @@ def run(ctx):
     famShapes = fam_same_name(mid if q else LEAF_KINDS) + fam_slash_name(mid if q else LEAF_KINDS)
     famShapes += fam_pairs([b"a", b".git", b"git~1", b"dir"] if q else [b"a", b"dir", b".git", b".GIT", b"git~1", b"..", b"a/b", ABSNAME], few if q else mid)
     famA = _dedupe(famNames + famShapes)
-    entryA = ["checkout", "reset_hard", "stash_apply", "patch_add", "am"] if q else \
-        ["checkout", "checkout_force", "switch", "reset_hard", "stash_apply", "patch_add", "patch_del", "am"]
+    entryA = ["checkout", "reset_hard", "stash_apply", "patch_add", "am", "checkout_paths"] if q else \
+        ["checkout", "checkout_force", "switch", "reset_hard", "stash_apply", "patch_add", "patch_del", "am", "checkout_paths", "restore_paths"]
     unbornA = ["checkout"] if q else ["checkout", "reset_hard"]
     cfgsA = ["default", "ntfs-off", "ntfs-off+hfs-on"] if q else list(CONFIGS)
     famNames2 = _dedupe(fam_single(LEAF_KINDS) + fam_nested(NAMES, NAMES, ["f", "G"]))  # quick, non-default configurations
@@ -1066,7 +1072,7 @@ def run(ctx):
     for cfg in cfgsA:
         full = cfg == "default"  # the other configurations: fewer entry points (quick: and only the names matrix)
         trees = famA if (full or not q) else famNames2
-        eps = entryA if full else (["checkout", "stash_apply", "patch_add"] if q else ["checkout", "reset_hard", "stash_apply", "patch_add", "am"])
+        eps = entryA if full else (["checkout", "stash_apply", "patch_add"] if q else ["checkout", "reset_hard", "stash_apply", "patch_add", "am", "checkout_paths"])
         planA.append({"config": cfg, "trees": len(trees), "entry_points": eps, "unborn": unbornA if full else [], "reset_index": True})
         stats.append(bfs(ctx, "A-entry-points", cfg, None, None, None, 1, first_ops=single_step_ops(trees, eps), prefix=base))
         if full:
@@ -1078,9 +1084,10 @@ def run(ctx):
     # ---- B. sequences: the same names come back with a different kind, through every entry point
     planB = []
     if q:
-        planB.append(("B-depth2", "default", fam_reuse(["updir", "hooks", "gitfile"], ["f"], [], [POISON]), TREE_OPS, 2))
+        planB.append(("B-depth2", "default", fam_reuse(["updir", "upfile", "hooks", "gitfile", "gitnew"], ["f"], [], [POISON],
+                                                      poison_for=("f", "L:updir", "D")), TREE_OPS, 2))
         planB.append(("B-depth3", "default", fam_reuse(["updir", "gitfile"], ["f"], [], [POISON], poison_for=("L:updir",), in_tree=False),
-                      ["checkout", "checkout_force", "reset_hard", "reset_mixed", "reset_soft", "stash_apply", "patch_add"], 3))
+                      ["checkout", "checkout_force", "reset_hard", "reset_mixed", "reset_soft", "stash_apply", "patch_add", "checkout_paths"], 3))
     else:
         planB.append(("B-depth3", "default", fam_reuse(["updir", "absdir", "upfile", "hooks", "gitfile", "gitnew"], ["f"], ["updir"], [POISON],
                                                       poison_for=("L:updir", "D")), TREE_OPS, 3))
@@ -1141,6 +1148,7 @@ def warmup():
         case_sequence(sub, cfg, [("clone", t1)])
         case_sequence(sub, cfg, [("reset_soft", ()), ("checkout", t1), ("switch", ()), ("checkout_force", t1), ("reset_mixed", t2), ("stash_push", None),
                                  ("stash_pop", None), ("reset_hard", t1), ("stash_apply", t1), ("patch_add", t2), ("patch_del", t1), ("reset_index", None),
+                                 ("checkout_paths", t2), ("restore_paths", t1),
                                  ("am", t2), ("am", t2), ("am_abort", None), ("reset_soft", t2), ("reset_hard", ())])
     # a deliberately failing am leaves state for am_abort
     case_sequence(sub, "default", [("reset_soft", ()), ("am", (E(b".git", "f"),)), ("am_abort", None)])
